@@ -2,7 +2,7 @@
 raw draws reduced modulo what exists, so any subsequence of a fault list is valid."""
 
 LINE_KINDS = ['drop', 'dup', 'swap', 'tear', 'long', 'bignum', 'id0', 'garbage']
-BYTE_KINDS = ['flip', 'ins', 'del', 'badutf8', 'nul', 'truncate']
+BYTE_KINDS = ['flip', 'ins', 'del', 'badutf8', 'nul', 'truncate', 'cr']
 
 GARBAGE = ['[1.5] wl_foo@3.bar(', '[1.5]  -> @3.bar()', '[x] a@1.b()', '[1.5] a@1.b(]', '[1.5] a@1.b("unterminated)',
            '[1.5] wl_display@1.delete_id()', '[1.5] wl_display@1.delete_id("x")', '[1.5] wl_display@1.delete_id(99)',
@@ -86,6 +86,10 @@ def apply_byte_faults(data, faults, counts=None):
             data[off:off] = [b'\xff', b'\xc3', b'\xe2\x82', b'\xf0\x9f\x98', b'\x80', b'\xed\xa0\x80'][r2 % 6]
         elif kind == 'nul':
             data.insert(off, 0)
+        elif kind == 'cr':
+            # a lone carriage return (progress output redrawn with \r, or just before a message)
+            nl = data.find(b'\n', off)
+            data.insert(off if (r2 % 2 or nl < 0) else nl + 1, 13)
         elif kind == 'truncate':
             del data[off:]
         if counts is not None:
